@@ -526,6 +526,22 @@ func dischargeSite(fn *ssa.Function, i ssa.Instruction) (kind, why string, ok, i
 			return "", "", true, false
 		}
 		return "panic", "explicit panic reachable from a parser", false, true
+	case *ssa.Call:
+		// library constructors of the Must… family panic on input they reject
+		// (regexp.MustCompile, netip.MustParseAddrPort, template.Must, …): in parser code their
+		// argument comes from the input unless it is a constant
+		if f := x.Call.StaticCallee(); f != nil && f.Pkg != nil && f.Pkg != fn.Pkg && strings.HasPrefix(f.Name(), "Must") {
+			allConst := len(x.Call.Args) > 0
+			for _, a := range x.Call.Args {
+				if _, isK := a.(*ssa.Const); !isK {
+					allConst = false
+				}
+			}
+			if allConst {
+				return "", "", true, false
+			}
+			return "must-call", "call of " + callName(&x.Call) + " with a run-time argument: it panics on input it rejects (use the error-returning variant)", false, true
+		}
 	}
 	return "", "", true, false
 }
